@@ -16,7 +16,7 @@ ANCHORS = ["pyoma2.functions.ssi:SSI_multi_setup", "pyoma2.functions.gen:pre_mul
 REQUIRED_MONITORS = ["shared-object history", "truth@PreGER.cov_mm", "truth@PreGER.dat", "truth@SSI_multi_setup", "gain-metamorphic", "split@pre_multisetup(direct)",
                      "split@pre_multisetup(every call made by MultiSetup_PreGER)"]
 ALL_STATES = ["refs listed out of order", "refs differ between setups", "complex shapes", "real shapes", "br=nu+1", "br>nu+1"]
-REQUIRED_STATES = ["refs listed out of order", "refs differ between setups", "br=nu+1", "equal record lengths, different channel counts", "a later setup repeats the first setup's reference records", "two global modes inside each other's default tolerance", "oversampled records, one reference, 3..5 modes"]
+REQUIRED_STATES = ["refs listed out of order", "refs differ between setups", "br=nu+1", "equal record lengths, different channel counts", "a later setup repeats the first setup's reference records", "two global modes inside each other's default tolerance", "oversampled records, one reference, 3..5 modes", "setup dictionaries with 'mov' before 'ref'"]
 RULE = ("A: random global systems (1..5 modes), 2..4 setups, 1..3 references anywhere/any order, 1..4 roving, gains 10^U(-2,2), own record "
         "length and initial condition per setup, br >= nu_ref+1, both methods, through MultiSetup_PreGER+SSIcov_MS/SSIdat_MS and "
         "ssi.SSI_multi_setup; non-trivial = guards hold and >= 2 setups with different gains; B: EVERY channel count 2..6 and EVERY ordered "
@@ -199,7 +199,11 @@ def run_identify(ctx, rng):
     if meth in skip:
         meth = "dat" if meth == "cov_mm" else "cov_mm"
     tol = tolm[meth]
-    Obs, A, C = ssi.SSI_multi_setup(Ysplit, fs, br, o, meth)
+    Yarg = Ysplit
+    if rng.random() < 0.5:
+        Yarg = [{"mov": y["mov"], "ref": y["ref"]} for y in Ysplit]  # the same dictionaries written in the other key order
+        ctx.state("setup dictionaries with 'mov' before 'ref'")
+    Obs, A, C = ssi.SSI_multi_setup(Yarg, fs, br, o, meth)
     F, X, P, L, *_ = ssi.SSI_poles(Obs, A, C, o, 1 / fs)
     judge(ctx, "truth@SSI_multi_setup", L[:, o], F[:, o], X[:, o], P[:, o, :], fn, xi, PhiG, lam, tol, "msfn")
     # metamorphic: other gains, same everything else -> same tables
